@@ -139,8 +139,9 @@ def run_kernel(chk, pid, kname, dts, clauses, tol=None, unit_overrides=None, tag
             want = expected_dtype(kname, dts)
             chk.decided(f'{pre}/dtype[{ptag}]', r.dtype == want, detail=f'got {r.dtype}, contract {want}', meta=meta)
         if 'relerr' in clauses:
-            allf64 = all(d != F32 for d in dts.values())
-            bound = Fr(1, 10 ** 11) if allf64 else Fr(1, 10 ** 5)
+            # precision follows the DATA operand (C07): a double-precision result is held to the double-precision bound even when a
+            # geometry operand is stored in single precision (its value is exact as given)
+            bound = Fr(1, 10 ** 11) if expected_dtype(kname, dts) == F64 else Fr(1, 10 ** 5)
             ok = r.buf.rel is not None and r.buf.rel <= bound
             chk.decided(f'{pre}/relerr[{ptag}]', ok,
                         detail=f'accumulated relative error bound {float(r.buf.rel) if r.buf.rel is not None else None} vs {float(bound)}',
@@ -242,8 +243,7 @@ def replay_kernel(rec):
                 problems.append(f'unit {r.unit} != documented {out_unit}')
             else:
                 ref = ref_si / mp.mpf(sc.scalar(1.0, unit=out_unit).to(unit=_si_unit_of(out_unit)).value)
-                allf64 = all(not str(v.dtype).endswith('32') for v in args.values())
-                tol = 1e-11 if allf64 else 1e-5
+                tol = 1e-5 if all(str(args[d].dtype) == 'float32' for d in spec['data']) else 1e-11
                 err = abs((mp.mpf(float(r.value)) - ref) / ref)
                 if not err <= tol:
                     problems.append(f'relative error {mp.nstr(err, 5)} > {tol}: got {float(r.value)!r}, reference {mp.nstr(ref, 17)}')
@@ -322,7 +322,8 @@ def grid_case(kname, units, dtypes, rng):
         problems.append(f'unit {r.unit} != documented {out_unit}')
     else:
         ref = reference(kname, exact_si, h, m) / mp.mpf(sc.scalar(1.0, unit=out_unit).to(unit=_si_unit_of(out_unit)).value)
-        tol = 1e-5 if 'float32' in dtypes else 1e-11
+        # precision follows the data operand: only a single-precision RESULT is held to the single-precision bound
+        tol = 1e-5 if all(dt == 'float32' for a, dt in zip(names, dtypes) if a in spec['data']) else 1e-11
         err = abs((mp.mpf(float(r.value)) - ref) / ref)
         if not err <= tol:
             problems.append(f'relative error {mp.nstr(err, 5)} > {tol}: got {float(r.value)!r}, reference {mp.nstr(ref, 17)}')
